@@ -497,7 +497,8 @@ def run(pid, P, t0, tmpdir):
             for k, v in stats["probes"].items():
                 agg["probes"][e["id"] + ":" + k if len(P["engines"]) > 1 else k] = \
                     agg["probes"].get(e["id"] + ":" + k if len(P["engines"]) > 1 else k, 0) + v
-            if len(agg["samples"]) < 3:
+            # up to two samples per engine, so that every engine's cases are shown
+            if sum(1 for x in agg["samples"] if ("property " + e["id"] + " ") in x) < 2 and len(agg["samples"]) < 6:
                 agg["samples"] += stats["samples"][:1]
             sample_mod = stats["distinct_sample_mod"]
             distinct.update((e["id"], h) for h in stats["distinct_hashes"])
